@@ -24,6 +24,7 @@ import AdfProofs.CreateWriteSet
 import AdfProofs.FlushWriteSet
 import AdfProofs.NextBlockWriteSet
 import AdfProofs.RenameWriteSet
+import AdfProofs.UndelWriteSet
 namespace Adf.C18
 open Adf
 
@@ -167,6 +168,31 @@ theorem C18_create_dir_write_set (c : Cfg) (v nParent : Nat) (name : Bytes) (s :
     Post AnyFault c (createDir v nParent name) s (fun _ s' => ∃ W, writesOf s'.trace = W ++ writesOf s.trace ∧
       CreateWrites c s.disk v (blkOfBytes ((s.sector (vsect c v nParent)).take 512)) (s.mem.vol v).bitmapTable W) :=
   createDir_write_set c v nParent name s hnc
+
+/-- **write set of `adfUndelDir`** (volumes without directory cache; every disk content, entry block, volume state and fault
+    schedule), newest first: the entry's own block at most once, at the sector its self pointer names; then at most one
+    link write — the parent directory where its self pointer says, or the tail of the hash chain as the disk then holds it
+    with only its link word replaced by the entry's block number; then, only after a successful link write, a bitmap
+    update in its fixed order.  No block of any other file or directory is written, wherever the call is interrupted. -/
+theorem C18_undelete_dir_write_set (c : Cfg) (v pSect : Nat) (entry : Blk) (s : St)
+    (hnc : isDIRCACHE (c.vol v).dosType = false) :
+    Post AnyFault c (undelDir v pSect entry) s (fun _ s' => ∃ W, writesOf s'.trace = W ++ writesOf s.trace ∧
+      UndelW c s.disk v (blkOfBytes ((s.sector (vsect c v pSect)).take 512)) (entry.w F_headerKey) W) :=
+  undelDir_write_set c v pSect entry s hnc
+
+/-- **write set of `adfUndelFile`** (from the point where it has the file's block lists): the same shape — marking the
+    file's blocks used writes nothing to the device -/
+theorem C18_undelete_file_write_set (c : Cfg) (v pSect : Nat) (entry : Blk) (data exts : List Nat) (s : St)
+    (hnc : isDIRCACHE (c.vol v).dosType = false) :
+    Post AnyFault c (undelFileRest v pSect entry data exts) s (fun _ s' => ∃ W, writesOf s'.trace = W ++ writesOf s.trace ∧
+      UndelW c s.disk v (blkOfBytes ((s.sector (vsect c v pSect)).take 512)) (entry.w F_headerKey) W) :=
+  undelFileRest_write_set c v pSect entry data exts s hnc
+
+/-- the link step of undelete on its own: nothing, or exactly one block, `some` iff that write succeeded -/
+theorem C18_create_entry_at_write_set (c : Cfg) (v : Nat) (dir : Blk) (name : Bytes) (t : Nat) (s : St) :
+    Post AnyFault c (createEntryAt v dir name t) s (fun r s' => ∃ W, writesOf s'.trace = W ++ writesOf s.trace ∧
+      CreateAtW c s.disk v dir t r.1 W) :=
+  createEntryAt_write_set c v dir name t s
 
 /-- **write set of `adfFileFlush`** (volumes without directory cache; every handle state, disk content, fault schedule): at
     most the handle's current extension block (where it says it lives), its data buffer (to the block the handle
